@@ -67,6 +67,18 @@ def run_case(rng, packed, compute_labels, cfg, nf, batches, Q):
             rd = list(csv.reader(f))
         if [int(r[0]) for r in rd[1:]] != direct_labels(est):
             problems.append("dump_assignments csv disagrees with the clusters")
+    # direct: transform = Jaccard distance to the centroid of the cluster of that rank
+    cents = [np.unpackbits(c, count=nf).astype(bool) for c in est.get_centroids(sort=True)] \
+        if hasattr(est, "get_centroids") else []
+    for qi, row in enumerate(tr):
+        q = np.array(Q[qi], dtype=bool)
+        for k, c in enumerate(cents[:len(row)]):
+            union = int((q | c).sum())
+            want = 1.0 - (int((q & c).sum()) / union if union else 0.0)
+            if abs(row[k] - want) > 1e-12:
+                problems.append(f"transform row {qi}: distance to the cluster of rank {k + 1} is {row[k]!r}, the "
+                                f"Jaccard distance to its centroid is {want!r}")
+                break
     # direct: predict = label of a nearest centroid under transform
     for qi, (p_, row) in enumerate(zip(pred, tr)):
         if row[p_ - 1] != min(row):
@@ -79,15 +91,26 @@ def suite_labels(seed, tier):
     r = Result("labels")
     n_cases = 60 if tier == "quick" else 1500
     terms, meta = [], []
-    for _ in range(n_cases):
+    for _case in range(n_cases):
         cfg = hist.gen_cfg(rng)
         nf = rng.choice([5, 8, 11, 16, 24])
         nb = rng.randint(1, 3)
         protos = None
         batches = []
+        tall = (_case % 60 == 7)          # clusters of 128..255 and more members (uint8 / uint16 sums)
         for _b in range(nb):
             rows, protos = hist.gen_fps(rng, rng.randint(2, 18), nf, protos)
             batches.append(rows)
+        if tall:
+            base = [1 if j % 2 == 0 else 0 for j in range(nf)]
+            fam = []
+            for _k in range(rng.choice([150, 200, 230])):
+                row = list(base)
+                if rng.random() < 0.3:
+                    row[rng.randrange(nf)] ^= 1
+                fam.append(row)
+            batches = [fam] + batches[:1]
+            cfg = {**cfg, "thr": min(cfg["thr"], 0.5), "crit": "diameter", "tol": None}
         Q = []
         while len(Q) < rng.randint(1, 5):
             q = [rng.randint(0, 1) for _ in range(nf)]
